@@ -53,6 +53,9 @@ def type_class(t):
 def gen_cases(ctx):
     rng = ctx.sub_rng("c05")
     ntop = 48 if ctx.tier == "quick" else 4000
+    tperm = list(range(128))
+    rng.shuffle(tperm)
+    tcount = [0]
     for i in range(ntop):
         hostile = (i % 8 == 7)
         nodes = N.tree_topology(rng, 2, 12 if i % 3 else 6)
@@ -81,7 +84,10 @@ def gen_cases(ctx):
             n = rng.choice([0, 1, 23, 24, 25, 47, 48, 49, 72, 96, 120, 143, 144,
                             rng.randrange(0, 145), rng.randrange(0, 145)])
             n = min(n, lim)
-            t = rng.choice([0, 1, 63, 64, 65, 66, 127, rng.randrange(0, 128)])
+            # every user type 0..127 comes round (a permutation is cycled through), mixed with
+            # the boundary values around the acknowledged range
+            tcount[0] += 1
+            t = rng.choice([0, 1, 63, 64, 65, 66, 127]) if tcount[0] % 3 == 0 else tperm[(tcount[0] * 2 // 3) % 128]
             ms = {"src": src, "dst": dst, "len": n, "type": t}
             prev = [x for x in msgs if x["src"] == src]
             if prev and rng.random() < 0.25:
